@@ -278,7 +278,7 @@ func ruleFilterPredicates(w *core.World, r *core.Report) {
 				if !ok || core.ResolveCall(c).Name != s.probe || len(c.Call.Args) != 2 {
 					return false
 				}
-				return core.IsFieldLoad(c.Call.Args[0], "RedisKeyFilter", field) && core.Unwrap(c.Call.Args[1]) == ssa.Value(f.Params[1])
+				return core.IsFieldLoad(c.Call.Args[0], "RedisKeyFilter", field) && argIsParam(c.Call.Args[1], f.Params[1])
 			}
 		}
 		isNilField := func(field string) func(p *core.Path) bool {
@@ -342,6 +342,17 @@ func ruleFilterPredicates(w *core.World, r *core.Report) {
 						x, y = y, x
 					}
 					if y == db && core.DependsOn(x, func(v ssa.Value) bool { return core.IsFieldLoad(v, "RedisKeyFilter", "dbBlackList") }) {
+						hit = true
+					}
+				}
+				// or the library form: slices.Contains(dbBlackList, db) held
+				for _, fct := range p.Conds {
+					c, ok := core.Unwrap(p.Resolve(fct.Cond)).(*ssa.Call)
+					if !ok || !fct.Val || len(c.Call.Args) != 2 {
+						continue
+					}
+					if nm := core.ResolveCall(c).Name; strings.HasPrefix(nm, "slices.Contains") &&
+						core.IsFieldLoad(core.Unwrap(c.Call.Args[0]), "RedisKeyFilter", "dbBlackList") && core.Unwrap(c.Call.Args[1]) == db {
 						hit = true
 					}
 				}
@@ -937,4 +948,37 @@ func ruleMultiKeySpecs(w *core.World, r *core.Report) {
 	}
 	sort.Strings(bad)
 	r.Check(len(bad) == 0 && n >= 10, "keyspec/multi-key-rows", pos, "rows of commands that address several keys must equal the published key specification (first, last, step); a row naming fewer keys lets the remaining keys bypass the key/slot filters and the single-slot check: %v (rows compared: %d)", bad, n)
+}
+
+
+// argIsParam: v is the parameter itself, or the parameter of a helper that
+// received it (a helper extracted from the function passes its argument on).
+func argIsParam(v ssa.Value, par *ssa.Parameter) bool {
+	v = core.Unwrap(v)
+	if v == ssa.Value(par) {
+		return true
+	}
+	q, ok := v.(*ssa.Parameter)
+	if !ok || q.Type() != par.Type() {
+		return false
+	}
+	// q is a parameter of another function: every call of that function inside par's function passes par there
+	callee := q.Parent()
+	idx := -1
+	for i, x := range callee.Params {
+		if x == q {
+			idx = i
+		}
+	}
+	found := false
+	for _, s := range core.Sites(par.Parent(), true) {
+		if s.Callee != callee {
+			continue
+		}
+		if idx >= len(s.Common().Args) || core.Unwrap(s.Common().Args[idx]) != ssa.Value(par) {
+			return false
+		}
+		found = true
+	}
+	return found
 }
